@@ -47,20 +47,64 @@ def guards(ctx: Ctx):
     from ..typetab import dt_members, eval_over_types
 
     where = f"{SMO}::_SingleSidedMovingAvgSmoother._can_smooth"
+    # ... and the spec the smoother HOLDS is what `Smoother.factory` constructs it with from the dimension's spec: a factory
+    # that "normalises" the spec (`spec.get(key) or default`) replaces an explicit window 0 before the guard sees it
+    from ..dectab import ModelInterp, eval_ctor
+
+    sm_cls = ctx.repo.cls(SMO, "Smoother")
+    fac = ctx.repo.lookup(sm_cls, "factory")
+    fac_body = SUMMARIZER.summarize(fac.node) if fac is not None else None
+
+    def held_spec(sd):
+        """the smoothing dict the smoother is constructed with for the dimension spec `sd` (None: not derivable)"""
+        if fac_body is None:
+            return None
+
+        def atoms(x):
+            t = u(x)
+            if t == "dimension.smoothing_dict":
+                return dict(sd)
+            if t == "dimension.dimension_type":
+                return "<dimension type>"
+            if isinstance(x, ast.Name) and x.id == "_SingleSidedMovingAvgSmoother":
+                return "_SingleSidedMovingAvgSmoother"
+            if isinstance(x, ast.Attribute) and isinstance(x.value, ast.Name) and x.value.id in ("cls", "Smoother") and x.attr in sm_cls.consts:
+                try:
+                    return ast.literal_eval(sm_cls.consts[x.attr])
+                except Exception:
+                    raise KeyError
+            raise KeyError
+
+        try:
+            callee, args, kw = eval_ctor(ModelInterp(atoms), fac_body)
+        except Exception:
+            return None
+        if callee != "_SingleSidedMovingAvgSmoother":
+            return None
+        init_ = ctx.repo.lookup(ci, "__init__")
+        bound = dict(zip([p_ for p_ in init_.params if p_ != "self"], args))
+        bound.update(kw)
+        v = bound.get("smoothing_dict")
+        return v if isinstance(v, dict) else None
+
     P = 5  # model: five periods on the last axis
     bad, n, undec = [], 0, None
     # the array handed in: empty / non-empty but all zeros / ordinary (whether smoothing applies depends on its SHAPE only)
     for size, nonzero in ((0, False), (3 * P, False), (3 * P, True)):
         for mem in dt_members(ctx.repo):
             for w in (None, 0, 1, 2, 3, P, P + 1, 50):
-                def extra(x, size=size, w=w, nonzero=nonzero):
+                spec = held_spec({} if w is None else {"window": w})
+                if spec is None:
+                    spec = {} if w is None else {"window": w}
+
+                def extra(x, size=size, w=w, nonzero=nonzero, spec=spec):
                     t = u(x)
                     if t == "self._smoothing_dict":
-                        return {} if w is None else {"window": w}
+                        return dict(spec)
                     if t in ("self._smoothing_dict.get('window')",):
-                        return w
+                        return spec.get("window")
                     if t in ("self._smoothing_dict.get('window', 2)",):
-                        return 2 if w is None else w
+                        return spec.get("window", 2)
                     if t in ("base_values.any()", "np.any(base_values)", "base_values.sum()", "np.sum(base_values)", "np.count_nonzero(base_values)", "base_values.max()"):
                         return nonzero
                     if t in ("base_values.all()", "np.all(base_values)"):
@@ -72,7 +116,7 @@ def guards(ctx: Ctx):
                     if t in ("base_values.shape[-1]", "base_values.shape[1]"):
                         return P
                     if t == "self._window":
-                        return 2 if w is None else w
+                        return 2 if spec.get("window") is None else spec.get("window")
                     raise KeyError
 
                 eff = 2 if w is None else w  # no window given: the default 2; an explicit 0 or 1 is a window below 2
